@@ -53,6 +53,8 @@ type c3arg struct {
 	lab  c3ident
 	void bool
 	incs []c3inc
+	nums  []uint64
+	align int64 // -1: none
 }
 
 func c3Operand(s string) c3operand {
@@ -102,6 +104,25 @@ func c3Inst(named map[string]*types.StructType, s string) c3inst {
 					f := strings.SplitN(it, "~", 2)
 					arg.incs = append(arg.incs, c3inc{c3Operand(f[0]), c3Ident(f[1])})
 				}
+			case 'K':
+				if len(a) > 1 {
+					for _, t := range strings.Split(a[1:], ",") {
+						k, err := strconv.ParseUint(t, 10, 64)
+						if err != nil {
+							panic("harness: bad index " + a)
+						}
+						arg.nums = append(arg.nums, k)
+					}
+				}
+			case 'A':
+				arg.align = -1
+				if len(a) > 1 {
+					k, err := strconv.ParseInt(a[1:], 10, 64)
+					if err != nil {
+						panic("harness: bad align " + a)
+					}
+					arg.align = k
+				}
 			case 'R':
 				if len(a) == 1 {
 					arg.void = true
@@ -121,6 +142,20 @@ var c3Preds = []enum.IPred{enum.IPredEQ, enum.IPredNE, enum.IPredUGT, enum.IPred
 
 var c3FPreds = []enum.FPred{enum.FPredFalse, enum.FPredOEQ, enum.FPredOGT, enum.FPredOGE, enum.FPredOLT, enum.FPredOLE, enum.FPredONE, enum.FPredORD,
 	enum.FPredUEQ, enum.FPredUGT, enum.FPredUGE, enum.FPredULT, enum.FPredULE, enum.FPredUNE, enum.FPredUNO, enum.FPredTrue}
+
+func c3AggElem(t types.Type, ks []uint64) types.Type {
+	for _, k := range ks {
+		switch a := t.(type) {
+		case *types.ArrayType:
+			t = a.ElemType
+		case *types.StructType:
+			t = a.Fields[k]
+		default:
+			panic("harness: not an aggregate")
+		}
+	}
+	return t
+}
 
 func c3CmpTy(t types.Type) types.Type {
 	if v, ok := t.(*types.VectorType); ok {
@@ -303,6 +338,10 @@ func core3BuildIn(named map[string]*types.StructType, a []string) *ir.Func {
 				a := &ir.InstAlloca{ElemType: in.args[0].ty}
 				a.Type()
 				obj = a
+			case in.row == 71:
+				obj = &ir.InstExtractValue{Indices: in.args[1].nums, Typ: c3AggElem(in.args[0].ty, in.args[1].nums)}
+			case in.row == 72:
+				obj = &ir.InstInsertValue{Indices: in.args[2].nums, Typ: in.args[0].ty}
 			default:
 				panic("harness: bad row")
 			}
@@ -345,8 +384,18 @@ func core3BuildIn(named map[string]*types.StructType, a []string) *ir.Func {
 		case *ir.InstLoad:
 			x.ElemType = as[0].ty
 			x.Src = operand(as[1].ty, as[1].op)
+			if as[2].align >= 0 {
+				x.Align = ir.Align(as[2].align)
+			}
 		case *ir.InstStore:
 			x.Src, x.Dst = operand(as[0].ty, as[0].op), operand(as[1].ty, as[1].op)
+			if as[2].align >= 0 {
+				x.Align = ir.Align(as[2].align)
+			}
+		case *ir.InstExtractValue:
+			x.X = operand(as[0].ty, as[0].op)
+		case *ir.InstInsertValue:
+			x.X, x.Elem = operand(as[0].ty, as[0].op), operand(as[1].ty, as[1].op)
 		case *ir.InstSelect:
 			x.Cond, x.ValueTrue, x.ValueFalse = operand(as[0].ty, as[0].op), operand(as[1].ty, as[1].op), operand(as[2].ty, as[2].op)
 		case *ir.TermRet:
@@ -385,6 +434,9 @@ func core3BuildIn(named map[string]*types.StructType, a []string) *ir.Func {
 		case *ir.InstShuffleVector:
 			x.X, x.Y, x.Mask = operand(as[0].ty, as[0].op), operand(as[1].ty, as[1].op), operand(as[2].ty, as[2].op)
 		case *ir.InstAlloca:
+			if as[1].align >= 0 {
+				x.Align = ir.Align(as[1].align)
+			}
 		case *ir.InstTrunc:
 			x.From = operand(as[0].ty, as[0].op)
 		case *ir.InstZExt:
